@@ -8,7 +8,7 @@ R3  layout agreement: (field, offset, width, codec) tables of WOPN_parseInstrume
 """
 from ..core import *
 from ..e1 import *
-from ..logic import const_of
+from ..logic import const_of, guard_facts, cmp_norm
 from ..report import Obl, Rule
 from .. import build
 from .wopn_common import run_e1, VERSION_REPS
@@ -18,6 +18,7 @@ RULES = [
     Rule('C15.R1', 'every write of the WOPN/OPNI savers stays inside the destination: covered by a length check on every path', 14),
     Rule('C15.R2', 'bytes written <= size calculator and == bytes consumed by the loader, as polynomials in the bank counts', 8),
     Rule('C15.R3', 'reader/writer layout tables, codec pairs, flag bits and string terminators agree', 40),
+    Rule('C15.R4', 'the placeholder bank created for a zero bank count is the one that is marked blank', 2),
 ]
 EXPLANATION = ('Byte-budget abstract interpretation (engine E1) of the structured bodies of WOPN_SaveBankToMem, WOPN_SaveInstToMem and '
                'WOPN_writeInstrument in the (cursor, length) dialect: budgets are polynomials over the unknown bank counts, counted loops are summarised, '
@@ -356,6 +357,7 @@ def analyse(facts, tier):
                                         why='copies %d byte(s) into [%d]; terminator at index %d (expected %d: keeps every copied byte that fits)' % (n, ext, k, want)))
     # header flag byte and bank meta: masks/shifts and relative offsets agree between loader and saver
     obls += header_agreement(facts)
+    obls += r4_init(facts)
     return obls
 
 
@@ -416,4 +418,49 @@ def header_agreement(facts):
         ok = fld in rm and rm.get(fld) == wm.get(fld)
         out.append(Obl('C15.R3', 'WOPN_SaveBankToMem', 'bank meta offset of ' + fld, sv.loc, 'discharged' if ok else 'finding',
                        why='loader reads offset %s, saver writes offset %s' % (rm.get(fld), wm.get(fld))))
+    return out
+
+
+
+def r4_init(facts):
+    """WOPN_Init: under `<kind>_banks == 0` one placeholder bank is allocated and its 128 instruments are marked blank.  The array that
+    is marked must be the array allocated from that parameter (parameter -> count field -> calloc -> array field): a placeholder
+    left unmarked is saved as 128 sounding instruments with zero delays and reloads as blank ones (save/load is no identity)."""
+    out = []
+    fn = facts.fn('WOPN_Init')
+    count_of = {}       # count field -> parameter id mentioned in its definition
+    array_of = {}       # array field -> count field mentioned in its calloc
+    marks = []
+    for b, j, st in fn.cfg.stmts():
+        for x in walk(st['s']):
+            ap = assign_parts(x)
+            if not ap:
+                continue
+            t = strip(ap[0])
+            if t.get('k') == 'MemberExpr' and strip(t.get('b')).get('k') in ('DeclRefExpr',):
+                fld = short(t['n'])
+                ps = [y.get('id') for y in walk(ap[1]) if y.get('k') == 'DeclRefExpr' and y.get('parm')]
+                if ps and not any(short(callee_name(y)) == 'calloc' for y in walk(ap[1])):
+                    count_of[fld] = ps[0]
+                for y in walk(ap[1]):
+                    if short(callee_name(y)) == 'calloc' and y.get('a'):
+                        cf = [short(z['n']) for z in walk(y['a'][0]) if z.get('k') == 'MemberExpr']
+                        if cf:
+                            array_of[fld] = cf[0]
+            if t.get('k') == 'MemberExpr' and short(t['n']) == 'inst_flags':
+                arr = [short(z['n']) for z in walk(t) if z.get('k') == 'MemberExpr' and short(z['n']).startswith('banks_')]
+                gf = guard_facts(fn, b, st)
+                gp = None
+                for f in gf:
+                    n_ = cmp_norm(f) if f[0] == 'cmp' else None
+                    if n_ and n_[0] == '==' and n_[2] == 0 and strip(n_[1]).get('parm'):
+                        gp = strip(n_[1])
+                marks.append((st['loc'], arr[0] if arr else None, gp))
+    if len(marks) < 2:
+        raise build.AnalysisBroken('C15.R4: blank-marking stores of WOPN_Init not found')
+    for loc, arr, gp in marks:
+        ok = arr is not None and gp is not None and count_of.get(array_of.get(arr)) == gp.get('id')
+        out.append(Obl('C15.R4', fn.name, 'placeholder %s marked blank under %s == 0' % (arr, short(gp['n']) if gp else '?'), loc, 'discharged' if ok else 'finding',
+                       why='%s is allocated from %s, which is derived from %s' % (arr, array_of.get(arr), short(gp['n'])) if ok else
+                       'the instruments marked blank under `%s == 0` belong to %s, which is not the array allocated for that count: the real placeholder bank stays unmarked and does not survive save + load' % (short(gp['n']) if gp else '?', arr)))
     return out
